@@ -31,6 +31,10 @@ type RecStore struct {
 	// Delay, when set, is called inside PutChangeSet before the data reaches
 	// the inner store (the window in which MemCachedStore serves from tempstore).
 	Delay func()
+	// Stall, when set, is called at the very start of a batch write, before the
+	// batch is recorded: a slow disk. What other goroutines write directly
+	// (SeekGC) meanwhile is recorded - and lands - ahead of the stalled batch.
+	Stall func()
 	// Fail, when set, is asked before every batch write; true refuses the batch
 	// (nothing written, an error returned), as a disk that is full or failing does.
 	Fail func() bool
@@ -57,6 +61,9 @@ var ErrInjectedWriteFailure = errors.New("injected write failure: nothing was wr
 func (s *RecStore) PutChangeSet(p, st map[string][]byte) error {
 	if s.Fail != nil && s.Fail() {
 		return ErrInjectedWriteFailure
+	}
+	if s.Stall != nil {
+		s.Stall()
 	}
 	if s.Record {
 		b := Batch{Puts: make(map[string][]byte, len(p)+len(st))}
